@@ -1,7 +1,7 @@
 SPECIFICATION Spec
 CONSTANTS
-    Terms = {0, 1}
-    SegDocs <- McSegDocs111
+    Terms = {0, 1, 2}
+    SegDocs <- McSegDocs11
     Dev = {}
 INVARIANT AllRight
 CHECK_DEADLOCK FALSE
